@@ -298,13 +298,19 @@ def task_read_file(pr, repo):
         pr.explore(ex, thunk, 'read_parameter_file ' + what)
 
 
+def task_version_lookup(pr, repo):
+    # the look-up the energy code goes through answers from the parameter object in use (C16-VD)
+    from . import C16
+    C16.task_version_hb(pr, repo)
+
+
 def run(pr, repo):
     pr.level = 'other'
     pr.explanation = ('deductive proof of the table invariants (VC) + exhaustive ground evaluation of the shipped file; '
                       'level is "other" because 3 recorded known findings (D10a-c) mean the completeness clause does NOT hold on this tree: '
                       'their obligations are refuted on every run and reported as KNOWN-FINDING, so discharged < obligations')
     from . import C03
-    pr.parallel([(task_pairwise, ()), (task_interaction, ()), (task_squared, ()), (task_read_file, ()), (C03.task_param_lookup, ())])
+    pr.parallel([(task_pairwise, ()), (task_interaction, ()), (task_squared, ()), (task_read_file, ()), (C03.task_param_lookup, ()), (task_version_lookup, ())])
     ground_shipped(pr, repo)
     pr.assumptions += ['PW: pre-states range over the universe {g1, g2, other}; entries of further names behave like "other" '
                        '(add() touches only the two keys it is given)',
